@@ -556,4 +556,299 @@ theorem ang2dir_unit (angles v : List ℝ) (h : ang2dir angles = .ok v) :
 example : ang2dir ([0, 0] : List ℝ) = .ok [0, 0, 1] := by
   simp [ang2dir, prodL, idxRange, List.range']
 
+/-! ## ang2dir: whole calls -/
+
+/-- a single direction through `ang2dir` is the row function `dirVec` -/
+theorem ang2dir_eq_dirVec (angles : List ℝ) (h : angles ≠ []) : ang2dir angles = .ok (dirVec angles) := by
+  have hl : angles.length ≠ 0 := by simpa using h
+  unfold ang2dir dirVec
+  simp only [hl, if_false]
+  split
+  · split <;> rfl
+  · rfl
+
+theorem dirVec_unit (angles : List ℝ) (h : angles ≠ []) :
+    (dirVec angles).length = angles.length + 1 ∧ ((dirVec angles).map fun x => x * x).sum = 1 :=
+  ang2dir_unit angles _ (ang2dir_eq_dirVec angles h)
+
+/-- 2-D: one angle is the azimuth, counter-clockwise from the x axis -/
+theorem dirVec_2d (az : ℝ) : dirVec [az] = [Real.cos az, Real.sin az] := by
+  simp [dirVec, prodL, idxRange, List.range']
+
+/-- 3-D: (azimuth, inclination from the z axis), ISO 80000-2 -/
+theorem dirVec_3d (az inc : ℝ) :
+    dirVec [az, inc] = [Real.sin inc * Real.cos az, Real.sin inc * Real.sin az, Real.cos inc] := by
+  simp [dirVec, prodL, idxRange, List.range', mul_comm]
+
+/-- 4-D: hyperspherical coordinates, no component swap -/
+theorem dirVec_4d (a b c : ℝ) :
+    dirVec [a, b, c] = [Real.sin a * Real.sin b * Real.sin c, Real.sin b * Real.sin c * Real.cos a,
+      Real.sin c * Real.cos b, Real.cos c] := by
+  simp [dirVec, prodL, idxRange, List.range']
+
+/-- **several directions in one call**: a successful call returns, for some row list `rows'` — the given rows, or the
+    single flat row transposed when `dim = 2` — exactly `dirVec` of every row: direction `r` is a function of row `r`
+    alone, every row has `dim - 1` angles and `dim ≥ 2`. -/
+theorem ang2dir_call_rowwise (preDim n : Nat) (rows : List (List ℝ)) (dim : Option Nat) (out : List (List ℝ))
+    (h : ang2dirCall preDim n rows dim = .ok out) :
+    ∃ rows' : List (List ℝ), out = rows'.map dirVec ∧ (∀ r ∈ rows', r.length + 1 = dim.getD (n + 1)) ∧ 2 ≤ dim.getD (n + 1) ∧
+      (rows' = rows ∨ (rows' = (rows.headD []).map (fun a => [a]) ∧ dim.getD (n + 1) = 2 ∧ rows.length = 1 ∧ preDim < 2)) := by
+  unfold ang2dirCall at h
+  by_cases hg : (2 < preDim ∨ (rows.any fun r => r.length != n) = true)
+  · rw [if_pos hg] at h; exact absurd h (by simp)
+  rw [if_neg hg] at h
+  simp only at h
+  have hrag : ∀ r ∈ rows, r.length = n := by
+    intro r hr
+    by_contra hne
+    exact hg (Or.inr (List.any_eq_true.2 ⟨r, hr, by simpa using hne⟩))
+  by_cases htr : (decide (dim.getD (n + 1) = 2) && decide (rows.length = 1) && decide (preDim < 2)) = true
+  · simp only [htr, if_true] at h
+    have htr' := htr
+    simp only [Bool.and_eq_true, decide_eq_true_eq] at htr'
+    rw [if_neg (by rw [htr'.1.1]; omega)] at h
+    simp only [Except.ok.injEq] at h
+    refine ⟨_, h.symm, ?_, by omega, Or.inr ⟨rfl, htr'.1.1, htr'.1.2, htr'.2⟩⟩
+    intro r hr
+    simp only [List.mem_map] at hr
+    obtain ⟨a, _, rfl⟩ := hr
+    simp [htr'.1.1]
+  · simp only [htr, Bool.false_eq_true, if_false] at h
+    by_cases hd : dim.getD (n + 1) ≠ n + 1 ∨ dim.getD (n + 1) = 1
+    · rw [if_pos hd] at h; exact absurd h (by simp)
+    · rw [if_neg hd] at h
+      simp only [Except.ok.injEq] at h
+      refine ⟨rows, h.symm, ?_, by omega, Or.inl rfl⟩
+      intro r hr
+      rw [hrag r hr]; omega
+
+/-- nested input (one row per direction) without `dim`: row `i` of the result is the single-direction conversion of
+    row `i` — the other rows do not matter — and it is a unit vector with `n + 1` components -/
+theorem ang2dir_call_nested (n : Nat) (hn : 1 ≤ n) (rows : List (List ℝ)) (hr : ∀ r ∈ rows, r.length = n) :
+    ang2dirCall 2 n rows none = .ok (rows.map dirVec) ∧
+    ∀ r ∈ rows, ang2dir r = .ok (dirVec r) ∧ (dirVec r).length = n + 1 ∧ ((dirVec r).map fun x => x * x).sum = 1 := by
+  constructor
+  · unfold ang2dirCall
+    have h1 : ¬(2 < 2 ∨ (rows.any fun r => r.length != n) = true) := by
+      rintro (h | h)
+      · omega
+      · obtain ⟨r, hr', hne⟩ := List.any_eq_true.1 h
+        simp [hr r hr'] at hne
+    rw [if_neg h1]
+    simp only [Option.getD_none, Nat.lt_irrefl, decide_false, Bool.and_false, Bool.false_eq_true, if_false]
+    rw [if_neg (by omega)]
+  · intro r hr'
+    have hne : r ≠ [] := by
+      intro h0; have := hr r hr'; rw [h0] at this; simp at this; omega
+    have := dirVec_unit r hne
+    exact ⟨ang2dir_eq_dirVec r hne, by rw [this.1, hr r hr'], this.2⟩
+
+/-- flat input of `k` angles with `dim = 2`: `k` two-dimensional directions `(cos a, sin a)` -/
+theorem ang2dir_call_2d_flat (as : List ℝ) :
+    ang2dirCall 1 as.length [as] (some 2) = .ok (as.map fun a => [Real.cos a, Real.sin a]) := by
+  unfold ang2dirCall
+  have h1 : ¬(2 < 1 ∨ (([as] : List (List ℝ)).any fun r => r.length != as.length) = true) := by simp
+  rw [if_neg h1]
+  simp [dirVec_2d]
+
+example : ang2dirCall 2 2 ([[0, Real.pi / 2], [Real.pi / 2, Real.pi / 2]] : List (List ℝ)) none
+    = .ok [[1, 0, 0], [0, 1, 0]] := by
+  rw [(ang2dir_call_nested 2 (by omega) _ (by simp)).1]
+  simp [dirVec_3d]
+
+/-! ## in-place histories -/
+
+/-- what a constructed model guarantees about the parameters the geometry depends on -/
+def MValid (s : MState ℝ) : Prop :=
+  1 ≤ s.dim ∧ s.anis.length = s.dim - 1 ∧ s.angles.length = noOfAngles s.dim ∧ ∀ a ∈ s.anis, 0 < a
+
+/-- whatever `set_len_anis` accepts: `dim - 1` positive ratios -/
+theorem setLenAnis_ok {d : Nat} {ls anis : List ℝ} {l0 : ℝ} {an : List ℝ} (h : setLenAnis d ls anis = .ok (l0, an)) :
+    an.length = d - 1 ∧ ∀ a ∈ an, 0 < a := by
+  unfold setLenAnis at h
+  cases ht : List.take d ls with
+  | nil => rw [ht] at h; exact absurd h (by simp)
+  | cons l0' rest =>
+    rw [ht] at h
+    simp only at h
+    by_cases hr : rest.length = 0
+    · simp only [hr, if_true] at h
+      by_cases hall : ((setAnis d anis).all fun a => decide (a > ((0:Nat):ℝ))) = true
+      · rw [if_pos hall] at h
+        simp only [Except.ok.injEq, Prod.mk.injEq] at h
+        obtain ⟨_, rfl⟩ := h
+        refine ⟨length_setAnis d anis, fun a ha => ?_⟩
+        have := List.all_eq_true.1 hall a ha
+        simpa using this
+      · rw [if_neg hall] at h; exact absurd h (by simp)
+    · simp only [hr, if_false] at h
+      split at h
+      · rename_i hall
+        simp only [Except.ok.injEq, Prod.mk.injEq] at h
+        obtain ⟨_, rfl⟩ := h
+        refine ⟨by simp [idxRange], fun a ha => ?_⟩
+        have := List.all_eq_true.1 hall a ha
+        simpa using this
+      · exact absurd h (by simp)
+
+theorem mInit_valid {d : Nat} {ls an ag : List ℝ} {s : MState ℝ} (h : mInit d ls an ag = .ok s) : MValid s := by
+  unfold mInit at h
+  by_cases hd : d < 1
+  · rw [if_pos hd] at h; exact absurd h (by simp)
+  rw [if_neg hd] at h
+  cases hok : setLenAnis d ls an with
+  | error e => rw [hok] at h; exact absurd h (by simp)
+  | ok r =>
+    obtain ⟨l0, an'⟩ := r
+    rw [hok] at h
+    simp only [Except.ok.injEq] at h
+    subst h
+    have := setLenAnis_ok hok
+    exact ⟨Nat.le_of_not_lt hd, this.1, length_setAngles d ag, this.2⟩
+
+/-- every setter keeps the guarantees (a rejected assignment does not produce a state at all) -/
+theorem mStep_valid {s s' : MState ℝ} (hs : MValid s) (op : MOp ℝ) (h : mStep s op = .ok s') : MValid s' := by
+  obtain ⟨h1, h2, h3, h4⟩ := hs
+  cases op with
+  | setAnis v =>
+    simp only [mStep] at h
+    split at h
+    · exact absurd h (by simp)
+    · rename_i l0 an hok
+      simp only [Except.ok.injEq] at h; subst h
+      have := setLenAnis_ok hok
+      exact ⟨h1, this.1, h3, this.2⟩
+  | setAngles v =>
+    simp only [mStep, Except.ok.injEq] at h; subst h
+    exact ⟨h1, h2, length_setAngles _ _, h4⟩
+  | setLenScale v =>
+    simp only [mStep] at h
+    split at h
+    · exact absurd h (by simp)
+    · rename_i l0 an hok
+      simp only [Except.ok.injEq] at h; subst h
+      have := setLenAnis_ok hok
+      exact ⟨h1, this.1, h3, this.2⟩
+  | setDim d =>
+    simp only [mStep] at h
+    by_cases hd : d < 1
+    · rw [if_pos hd] at h; exact absurd h (by simp)
+    rw [if_neg hd] at h
+    cases hok : setLenAnis d [s.lenScale] s.anis with
+    | error e => rw [hok] at h; exact absurd h (by simp)
+    | ok r =>
+      obtain ⟨l0, an⟩ := r
+      rw [hok] at h
+      simp only [Except.ok.injEq] at h; subst h
+      have := setLenAnis_ok hok
+      exact ⟨Nat.le_of_not_lt hd, this.1, length_setAngles _ _, this.2⟩
+
+theorem mStepKeep_valid {s : MState ℝ} (hs : MValid s) (op : MOp ℝ) : MValid (mStepKeep s op).1 := by
+  unfold mStepKeep
+  split
+  · rename_i s' h; exact mStep_valid hs op h
+  · exact hs
+
+/-- every state of a history (after the constructor, after every setter, accepted or rejected) is valid -/
+theorem mRun_valid {s : MState ℝ} (hs : MValid s) (ops : List (MOp ℝ)) : ∀ r ∈ mRun s ops, MValid r.1 := by
+  induction ops generalizing s with
+  | nil => intro r hr; simp [mRun] at hr
+  | cons op rest ih =>
+    intro r hr
+    simp only [mRun, List.mem_cons] at hr
+    rcases hr with rfl | hr
+    · exact mStepKeep_valid hs op
+    · exact ih (mStepKeep_valid hs op) r hr
+
+theorem mFinal_valid {s : MState ℝ} (hs : MValid s) (ops : List (MOp ℝ)) : MValid (mFinal s ops) := by
+  induction ops generalizing s with
+  | nil => exact hs
+  | cons op rest ih => exact ih (mStepKeep_valid hs op)
+
+/-- a valid state is what the constructor makes of its own public values -/
+theorem valid_fresh {s : MState ℝ} (hs : MValid s) : mInit s.dim [s.lenScale] s.anis s.angles = .ok s := by
+  obtain ⟨h1, h2, h3, h4⟩ := hs
+  unfold mInit
+  rw [if_neg (by omega), len_scale_single s.dim h1 s.lenScale s.anis h4]
+  have ha : setAnis s.dim s.anis = s.anis := by
+    rw [(pad_rules_anis s.dim s.anis).2.2 (by omega), List.take_of_length_le (by omega)]
+  have hg : setAngles s.dim s.angles = s.angles := by
+    rw [(pad_rules_angles s.dim s.angles).2.2 (by omega), List.take_of_length_le (by omega)]
+  simp only [ha, hg]
+
+/-- **history independence of the geometry**: after the constructor and ANY sequence of `dim` / `len_scale` / `anis` /
+    `angles` assignments (accepted or rejected), the model is exactly the one a fresh constructor call builds from
+    its current public values — so `isometrize`, `anisometrize`, `main_axes`, `_get_iso_rad`, `cov_spatial`, which
+    are functions of the current `(dim, angles, anis)` only, are those of the fresh model. -/
+theorem hist_geometry_is_fresh {d : Nat} {ls an ag : List ℝ} {s0 : MState ℝ} (h0 : mInit d ls an ag = .ok s0)
+    (ops : List (MOp ℝ)) :
+    let s := mFinal s0 ops
+    mInit s.dim [s.lenScale] s.anis s.angles = .ok s ∧ MValid s :=
+  ⟨valid_fresh (mFinal_valid (mInit_valid h0) ops), mFinal_valid (mInit_valid h0) ops⟩
+
+/-- … and in every state of a history the isometrizing map is invertible with `anisometrize` as its inverse -/
+theorem hist_roundtrip {d : Nat} {ls an ag : List ℝ} {s0 : MState ℝ} (h0 : mInit d ls an ag = .ok s0)
+    (ops : List (MOp ℝ)) (x : Nat → ℝ) :
+    let s := mFinal s0 ops
+    toV s.dim (anisometrize s.dim s.angles s.anis (isometrize s.dim s.angles s.anis x)) = toV s.dim x :=
+  (iso_aniso_roundtrip _ _ _ (mFinal_valid (mInit_valid h0) ops).2.2.2 x).1
+
+/-- assigning one length scale per axis redefines the ratios from the list alone: the previous ratios are
+    forgotten, the main length scale is the first entry, the angles stay -/
+theorem setLenScale_list (s : MState ℝ) (l0 l1 : ℝ) (ls : List ℝ) (hd : s.dim = ls.length + 2)
+    (h0 : 0 < l0) (h : ∀ l ∈ l1 :: ls, 0 < l) :
+    mStep s (.setLenScale (l0 :: l1 :: ls)) = .ok { s with lenScale := l0, anis := (l1 :: ls).map fun l => l / l0 } := by
+  simp only [mStep, hd, len_scale_list l0 l1 ls s.anis h0 h]
+
+/-- equal length scales make the model isotropic whatever the ratios were before: the isotropic radius is the
+    plain norm for every rotation -/
+theorem setLenScale_equal_isotropic (s s' : MState ℝ) (l : ℝ) (hl : 0 < l) (k : Nat) (hd : s.dim = k + 2)
+    (h : mStep s (.setLenScale (List.replicate (k + 2) l)) = .ok s') (x : Nat → ℝ) :
+    s'.anis = List.replicate (k + 1) 1 ∧ isoRad s'.dim s'.angles s'.anis x = norm2 s'.dim x := by
+  have hrep : List.replicate (k + 2) l = l :: l :: List.replicate k l := by simp [List.replicate_succ]
+  have hpos : ∀ y ∈ l :: List.replicate k l, 0 < y := by
+    intro y hy
+    rcases List.mem_cons.1 hy with rfl | hy
+    · exact hl
+    · rw [List.eq_of_mem_replicate hy]; exact hl
+  rw [hrep, setLenScale_list s l l (List.replicate k l) (by simpa using hd) hl hpos] at h
+  simp only [Except.ok.injEq] at h
+  subst h
+  have hne : l ≠ 0 := ne_of_gt hl
+  have han : (l :: List.replicate k l).map (fun y => y / l) = List.replicate (k + 1) 1 := by
+    simp [List.replicate_succ, div_self hne]
+  refine ⟨han, ?_⟩
+  simp only [han]
+  have hsa : setAnis s.dim (List.replicate (k + 1) (1:ℝ)) = setAnis s.dim [] := by
+    rw [(pad_rules_anis s.dim _).2.1 (by simp; omega), (pad_rules_anis s.dim []).2.1 (by simp)]
+    simp [hd, List.replicate_succ]
+  have : isoRad s.dim s.angles (List.replicate (k + 1) 1) x = isoRad s.dim s.angles [] x := by
+    simp only [isoRad, isometrize, matrixIsometrize, matrixIsotropify, hsa]
+  rw [this, iso_rad_without_anis]
+
+example : mInit 2 ([2, 1] : List ℝ) [] [0.3] = .ok ⟨2, 2, [1 / 2], [0.3]⟩ := by
+  have := len_scale_list (2:ℝ) 1 [] [] (by norm_num) (by simp)
+  simp only [List.length_nil, Nat.zero_add] at this
+  simp [mInit, this, setAngles, noOfAngles]
+
+/-! ## the tables the driver keeps per state are the model's matrices -/
+
+theorem isoTab_eq (d : Nat) (angles anis : List ℝ) :
+    toM d (ofArr d (isoTab d angles anis)) = toM d (matrixIsometrize d angles anis) := by
+  simp only [isoTab, matrixIsometrize, toM_ofArr_tabArr, toM_matmul]
+
+theorem anisoTab_eq (d : Nat) (angles anis : List ℝ) :
+    toM d (ofArr d (anisoTab d angles anis)) = toM d (matrixAnisometrize d angles anis) := by
+  simp only [anisoTab, matrixAnisometrize, toM_ofArr_tabArr, toM_matmul]
+
+/-- what the driver evaluates for `isometrize` / `anisometrize` / `_get_iso_rad` of a state is the model's value -/
+theorem tab_geometry_eq (d : Nat) (angles anis : List ℝ) (x : Nat → ℝ) :
+    toV d (applyMat d (ofArr d (isoTab d angles anis)) x) = toV d (isometrize d angles anis x) ∧
+    toV d (applyMat d (ofArr d (anisoTab d angles anis)) x) = toV d (anisometrize d angles anis x) ∧
+    norm2 d (applyMat d (ofArr d (isoTab d angles anis)) x) = isoRad d angles anis x := by
+  refine ⟨?_, ?_, ?_⟩
+  · rw [isometrize, toV_applyMat, toV_applyMat, isoTab_eq]
+  · rw [anisometrize, toV_applyMat, toV_applyMat, anisoTab_eq]
+  · rw [isoRad, norm2_eq, norm2_eq, isometrize, toV_applyMat, toV_applyMat, isoTab_eq]
+
 end GSV.Props.C12
